@@ -1,0 +1,25 @@
+//go:build verif
+
+// Package verifhook provides observation points for external verification harnesses.
+// With the "verif" build tag a harness can register a handler that is called at every point.
+package verifhook
+
+import "sync/atomic"
+
+var handler atomic.Pointer[func(string)]
+
+// Set registers fn as the handler called at every Point (nil unregisters).
+func Set(fn func(string)) {
+	if fn == nil {
+		handler.Store(nil)
+		return
+	}
+	handler.Store(&fn)
+}
+
+// Point marks a place between two externally visible effects and calls the registered handler.
+func Point(name string) {
+	if h := handler.Load(); h != nil {
+		(*h)(name)
+	}
+}
